@@ -102,6 +102,43 @@ static void s_case(uint64_t idx, void *ctx)
     mc_nontrivial();
 }
 
+/* program names of any length: the magic first line is "<NAME-VERSION>", built in a fixed 30-byte buffer */
+static const int NLEN[] = { 1, 26, 27, 28, 29, 30, 40, 300 };
+#define NNLEN 8
+#define NFIRST 8
+static void pn_desc(uint64_t idx, void *ctx, char *b, size_t n)
+{
+    static const char *w[NFIRST] = { "<NAME-1.0>", "<NAME", "<NAME>", "<NAME cut to 28 chars", "<NAME without newline", "<NAME-", "<NAMEzzz>-1.0", "<NAME-1.0 without '>'" }; (void) ctx;
+    snprintf(b, n, "program name of %d characters; config file whose first line is %s, then one ordinary line", NLEN[idx / NFIRST], w[idx % NFIRST]);
+}
+static void pn_case(uint64_t idx, void *ctx)
+{
+    int nl = NLEN[idx / NFIRST], v = (int) (idx % NFIRST); (void) ctx;
+    names_once();
+    char *name = malloc((size_t) nl + 1); for (int i = 0; i < nl; i++) name[i] = (char) ('a' + i % 26); name[nl] = 0;
+    static char data[1200]; size_t o = 0;
+    switch (v) {
+    case 0: o = (size_t) sprintf(data, "<%s-1.0>\n", name); break;
+    case 1: o = (size_t) sprintf(data, "<%s\n", name); break;
+    case 2: o = (size_t) sprintf(data, "<%s>\n", name); break;
+    case 3: o = (size_t) sprintf(data, "<%.28s\n", name); break;
+    case 4: o = (size_t) sprintf(data, "<%s", name); break;
+    case 5: o = (size_t) sprintf(data, "<%s-\n", name); break;
+    case 6: o = (size_t) sprintf(data, "<%szzz>-1.0\n", name); break;
+    case 7: o = (size_t) sprintf(data, "<%s-1.0\n", name); break;
+    }
+    if (v != 4) o += (size_t) sprintf(data + o, "x 1\n");
+    char shape[64]; snprintf(shape, sizeof shape, "program name %s 28 characters", nl < 28 ? "below" : "of at least");
+    mc_set_shape(shape);
+    char path[300]; snprintf(path, sizeof path, "%s/pn-%d.cfg", scratch(), (int) getpid());
+    write_file(path, data, o);
+    spif_charptr_t keep = libast_program_name; libast_program_name = (spif_charptr_t) name;
+    parse_guarded_file(path, shape);
+    libast_program_name = keep;
+    free(name);
+    mc_nontrivial();
+}
+
 /* ------------------------------------------------------------------ (2) paths */
 static const int PLEN[] = { 0, 1, 255, 4093, 4094, 4095, 4096, 4097, 40000, 70000, 32767, 32768, 65534, 65535, 65536, 66000 };     /* incl. lengths whose sums wrap a 15/16-bit length */
 #define NPLEN 16
@@ -318,6 +355,7 @@ int main(int argc, char **argv)
     mc_guarded("controls", "spawn-trap positive controls: backquote value and %exec(true) must reach the trap; single-quoted backquote must not", spawn_controls, NULL);
     mc_guarded("find_file", "find_file positive control: an existing file is found via dir and via the search path", p_found, NULL);
     mc_e2_level("special_files", 1, 6, s_case, s_desc, NULL);
+    mc_e2_level("program_name_length", 300, (uint64_t) NNLEN * NFIRST, pn_case, pn_desc, NULL);
     for (g_n = 1; g_n <= N; g_n++) if (!mc_e2_level("hostile_files", g_n, mc_words_of_len(NHOST, g_n) * NVAR, h_case, h_desc, NULL)) break;
     mc_e2_level("paths", 1, (uint64_t) NPLEN * (NPLEN + 1) * NPL, p_case, p_desc, NULL);
     mc_e2_level("temp_file", 1, 64, t_case, t_desc, NULL);
